@@ -8,14 +8,11 @@ CONSTANTS
   Decs <- DecsSleep
   BFaults <- BFaultsNone
   Ras <- RasNone
-  Modes = {"call", "exec"}
+  Modes = {"exec"}
   RunGaps <- GapsNone
   NRuns = 1
-  Configs <- ConfigsC02
-  RecordHist = FALSE
+  Configs <- ConfigsC02x
+  RecordHist = TRUE
 INVARIANT NoViolation
-INVARIANT AttemptsBounded
-INVARIANT InvokeWithinDeadline
-INVARIANT SleepWithinRemaining
-INVARIANT DeliveriesRelated
+INVARIANT ExportBehaviours
 CHECK_DEADLOCK FALSE
